@@ -40,6 +40,7 @@ type Case struct {
 	Stored  uint32 // read: attribute mask stored in the file
 	FileLen int    // read: -1 file absent, 0..3 short file, 4 = mask + value
 	Global  bool   // legacy: use WriteEfivars/ReadEfivars (GUID chosen by name)
+	Chunk   int    // read: the file hands out at most Chunk bytes per Read call (0 = no limit)
 }
 
 type raw []byte
@@ -104,6 +105,7 @@ func genCase(t *rapid.T) Case {
 			c.Stored = rapid.Uint32().Draw(t, "stored")
 		}
 		c.FileLen = rapid.SampledFrom([]int{4, 4, 4, 4, 4, 4, -1, 0, 1, 2, 3}).Draw(t, "filelen")
+		c.Chunk = rapid.SampledFrom([]int{0, 0, 0, 1, 3, 7, 64}).Draw(t, "chunk")
 	}
 	if c.API == "legacy" {
 		c.Global = rapid.IntRange(0, 3).Draw(t, "global") == 0
@@ -143,6 +145,10 @@ func checkCase(c Case) error {
 
 	mem := afero.NewMemMapFs()
 	rec := recfs.New(mem, "MemMapFS")
+	rec.ReadChunk = c.Chunk
+	if c.Chunk > 0 {
+		hx.Class("read/chunked_reader")
+	}
 
 	// classification
 	hx.Class("api/" + c.API)
